@@ -64,22 +64,23 @@ theorem repRef_uncovered (P : List (Ns × Plan)) (tag : String) (r : Ref) (h : c
 theorem rep_is_representative (a b : Module) (ha : UniqueNames a) (hb : UniqueNames b) (ns : Ns) (hns : ns.std)
     (x2 : Node) (hx : x2 ∈ b) (hxt : x2.tag ∈ ns.tags) :
     ∃ y ∈ merge a b, y.tag = x2.tag ∧ y.hash = x2.hash ∧ y.name = rep (mergeSt a b).plans ns x2.name := by
-  obtain ⟨y, hy, h1, h2, h3, _⟩ := (minv_mergeSt ha hb).rep ns (std_mem_finalKeys hns) (tags_mem_finalMoved ns) x2 hx hxt
+  obtain ⟨sv, h⟩ := minv_mergeSt ha hb
+  obtain ⟨y, hy, h1, h2, h3, _⟩ := h.rep ns (std_mem_finalKeys hns) (tags_mem_finalMoved ns) x2 hx hxt
   exact ⟨y, hy, h1, h2, h3⟩
 
-/-- C09.6 `refs_renamed`: every node `x` of B (in a namespace with `calculate_item_actions`) that is ADDED to the result —
-    i.e. whose representative is not A's identical node — arrives as a node `y` with `x`'s tag and hash, named `rep … x.name`,
-    and `y`'s references are exactly `x`'s references with every covered `site@target` replaced by `site@rep(target)`. -/
+/-- C09.6 `refs_renamed`, at full strength: every node `x` of B in a namespace with `calculate_item_actions` — ADDED or
+    SHARED (identical → skipped) — has a representative `y` in the result with `x`'s tag and hash, named `rep … x.name`, and
+    `y`'s references are exactly `x`'s references with every covered `site@target` replaced by `site@rep(target)`, with the
+    FINAL rename tables. No side condition beyond unique names is needed: the merge actions are now computed after all
+    renames that touch the kind (fixpoint loops). -/
 theorem refs_renamed (a b : Module) (ha : UniqueNames a) (hb : UniqueNames b) (ns : Ns) (hns : ns.std)
     (x : Node) (hx : x ∈ b) (hxt : x.tag ∈ ns.tags) :
     ∃ y ∈ merge a b, y.tag = x.tag ∧ y.hash = x.hash ∧ y.name = rep (mergeSt a b).plans ns x.name ∧
-      ((y ∈ a ∧ y.name = x.name) ∨
-       (y.name ∉ names ns a ∧ y.refs = x.refs.map (repRef (mergeSt a b).plans x.tag))) := by
-  obtain ⟨y, hy, h1, h2, h3, _, h5⟩ := (minv_mergeSt ha hb).rep ns (std_mem_finalKeys hns) (tags_mem_finalMoved ns) x hx hxt
-  refine ⟨y, hy, h1, h2, h3, ?_⟩
-  rcases h5 with ⟨h5a, h5b, _⟩ | ⟨h5a, h5b⟩
-  · exact .inl ⟨h5a, h5b⟩
-  · exact .inr ⟨h5a, h5b⟩
+      y.refs = x.refs.map (repRef (mergeSt a b).plans x.tag) ∧
+      ((y ∈ a ∧ y.name = x.name) ∨ y.name ∉ names ns a) := by
+  obtain ⟨sv, h⟩ := minv_mergeSt ha hb
+  obtain ⟨y, hy, h1, h2, h3, _, h5, h6⟩ := h.rep ns (std_mem_finalKeys hns) (tags_mem_finalMoved ns) x hx hxt
+  exact ⟨y, hy, h1, h2, h3, h5, h6⟩
 
 /-- the same from the side of the result (all kinds, also the unnamed ones, FUNCTION and GROUP): every reference of every
     node of the result is a reference of a node of A of the same kind, or a renamed (`repRef`) reference of a node of B of
@@ -88,7 +89,8 @@ theorem refs_provenance (a b : Module) (ha : UniqueNames a) (hb : UniqueNames b)
     (r : Ref) (hr : r ∈ y.refs) :
     (∃ a0 ∈ a, a0.tag = y.tag ∧ r ∈ a0.refs) ∨
     (∃ x ∈ b, x.tag = y.tag ∧ ∃ r0 ∈ x.refs, r = repRef (mergeSt a b).plans x.tag r0) := by
-  rcases (minv_mergeSt ha hb).prov y hy r hr with h | ⟨_, x, hx, hxt, hxr⟩
+  obtain ⟨sv, hinv⟩ := minv_mergeSt ha hb
+  rcases hinv.prov y hy r hr with h | ⟨_, x, hx, hxt, hxr⟩
   · exact .inl h
   · obtain ⟨r0, hr0, e⟩ := List.mem_map.mp hxr
     exact .inr ⟨x, hx, hxt, r0, hr0, e.symm⟩
@@ -100,33 +102,29 @@ theorem refs_provenance (a b : Module) (ha : UniqueNames a) (hb : UniqueNames b)
 theorem no_dangling (a b : Module) (ha : UniqueNames a) (hb : UniqueNames b) (hra : Resolved a) (hrb : Resolved b) :
     Resolved (merge a b) := resolved_mergeSt ha hb hra hrb
 
-/-! ### the weak spot: a shared node keeps pointing at A's objects -/
+/-! ### the former weak spot: a shared node whose target is renamed -/
 
-/-- "the representative of `x` refers to the representatives of `x`'s targets" is FALSE for shared (identical → skipped)
-    nodes: the merge actions of the objects are computed before the typedefs are renamed. B's INSTANCE `i` (of type B's
-    `td`, hash `h2`) is identical to A's at comparison time and dropped; B's `td` then becomes `td.MERGE`, but the only `i`
-    of the result still has type `td` = A's different typedef (hash `h1`). Nothing dangles — the reference is mis-bound. -/
-theorem shared_refs_counterexample :
+/-- The counterexample of the previous round (`shared_refs_counterexample`) no longer holds. B's INSTANCE `i` (of type B's
+    `td`, hash `h2`) is textually identical to A's `i`, but B's `td` conflicts with A's `td`: the first round renames `td`,
+    which changes B's `i` (type `td.MERGE`), the second round therefore renames `i`, the third finds nothing new. `i` is
+    added as `i.MERGE` referring to `td.MERGE`, and "the representative of `x` refers to the representatives of `x`'s
+    targets" holds for it. -/
+theorem shared_refs_fixed :
     UniqueNames weakA ∧ UniqueNames weakB ∧ Resolved weakA ∧ Resolved weakB ∧
-    merge weakA weakB = weakA ++ [⟨"TYPEDEF_BLOB", "td.MERGE", "h2", []⟩] ∧
+    merge weakA weakB = weakA ++ [⟨"INSTANCE", "i.MERGE", "h", [⟨"Instance.type_ref", "td.MERGE"⟩]⟩,
+                                  ⟨"TYPEDEF_BLOB", "td.MERGE", "h2", []⟩] ∧
+    loopRounds weakA [.object, .typedef] (loopFuel [.object, .typedef] weakB) weakB (fun _ => []) = some 3 ∧
     rep (mergeSt weakA weakB).plans .typedef "td" = "td.MERGE" ∧
-    ¬ ∃ y ∈ merge weakA weakB, y.tag = "INSTANCE" ∧ y.name = rep (mergeSt weakA weakB).plans .object "i" ∧
+    rep (mergeSt weakA weakB).plans .object "i" = "i.MERGE" ∧
+    ∃ y ∈ merge weakA weakB, y.tag = "INSTANCE" ∧ y.name = rep (mergeSt weakA weakB).plans .object "i" ∧
         y.refs = [⟨"Instance.type_ref", rep (mergeSt weakA weakB).plans .typedef "td"⟩] :=
   ⟨uniqueNames_of_check (by decide), uniqueNames_of_check (by decide), resolved_of_check (by decide),
-   resolved_of_check (by decide), by decide, by decide, by decide⟩
+   resolved_of_check (by decide), by decide, by decide, by decide, by decide, by decide⟩
 
-/-- what does hold for a shared node (`refs_follow_partial`): A's identical node carries `x`'s references renamed by the
-    tables `ps` of the passes BEFORE the comparison (a suffix of the log); renames made later are not applied to it. -/
-theorem refs_follow_partial (a b : Module) (ha : UniqueNames a) (hb : UniqueNames b) (ns : Ns) (hns : ns.std)
-    (x : Node) (hx : x ∈ b) (hxt : x.tag ∈ ns.tags) :
-    ∃ y ∈ merge a b, y.tag = x.tag ∧ y.name = rep (mergeSt a b).plans ns x.name ∧
-      (y.refs = x.refs.map (repRef (mergeSt a b).plans x.tag) ∨
-       ∃ ps, ps <:+ (mergeSt a b).plans ∧ y ∈ a ∧ y.refs = x.refs.map (repRef ps x.tag)) := by
-  obtain ⟨y, hy, h1, _, h3, _, h5⟩ := (minv_mergeSt ha hb).rep ns (std_mem_finalKeys hns) (tags_mem_finalMoved ns) x hx hxt
-  refine ⟨y, hy, h1, h3, ?_⟩
-  rcases h5 with ⟨h5a, _, ps, hps, e⟩ | ⟨_, h5b⟩
-  · exact .inr ⟨ps, hps, h5a, by rw [e]; rfl⟩
-  · exact .inl h5b
+/-- a shared node stays shared when its targets are shared too: nothing is added -/
+theorem shared_refs_shared :
+    let a : Module := [⟨"INSTANCE", "i", "h", [⟨"Instance.type_ref", "td"⟩]⟩, ⟨"TYPEDEF_BLOB", "td", "h1", []⟩]
+    merge a a = a := by decide
 
 /-! non-vacuity: a merge with conflicts in three namespaces where all hypotheses hold and references are renamed -/
 
